@@ -184,6 +184,43 @@ func c06NestedFlags(r *run.Run, maxLen int) {
 		})
 }
 
+// c06Subtables: lookups with two subtables ("the first subtable that matches at a position"): all
+// ordered pairs of menu entries of the same lookup type, incl. subtables that match without changing
+// anything (a class pair with an empty record shadows a later subtable).
+func c06Subtables(r *run.Run, maxLen int) {
+	alphabet := []glyph.ID{gen.GA, gen.GB, gen.GM, gen.GN, gen.GL}
+	flags := []int{0, 1, 4, 9}
+	r.Explore(explore.Config{Name: "C06.subtables", Deadline: r.PartDeadline(0.95)},
+		fmt.Sprintf("lookups with two or three subtables: all ordered pairs (and the pair followed by the first again) of menu entries of one lookup type (GSUB 1-4, GPOS 1, 2, 4) x 4 flag sets x 2 GDEF variants, on all glyph sequences of length <= %d over {A,B,M,N,L}: the first subtable that matches at a position is applied, no other", maxLen),
+		func(c *explore.Ctx) {
+			gpos := c.Bool("gpos")
+			menu := gen.GsubSimple
+			if gpos {
+				menu = gen.GposSimple
+			}
+			a := c.Choose(len(menu), "first subtable")
+			b := c.Choose(len(menu), "second subtable")
+			if menu[a].Type != menu[b].Type || menu[a].Type == 8 {
+				c.Skip("different lookup types")
+			}
+			third := c.Bool("third subtable")
+			f := gen.Flags[flags[c.Choose(len(flags), "flags")]]
+			gd, gdn := gen.Gdef(c.Choose(2, "gdef"))
+			subs := append(append([]gtab.Subtable{}, menu[a].Sub()...), menu[b].Sub()...)
+			desc := []string{menu[a].Name + " || " + menu[b].Name + " " + f.Name, "gdef:" + gdn}
+			if third {
+				subs = append(subs, menu[(a+1)%len(menu)].Sub()...)
+				if menu[(a+1)%len(menu)].Type != menu[a].Type {
+					c.Skip("third subtable of a different type")
+				}
+				desc[0] = menu[a].Name + " || " + menu[b].Name + " || " + menu[(a+1)%len(menu)].Name + " " + f.Name
+			}
+			ll := gtab.LookupList{gen.MakeLookup(menu[a].Type, f, subs)}
+			c.Sample(func() any { return desc })
+			compareShaping(c, ll, gd, []gtab.LookupIndex{0}, gpos, alphabet, maxLen, "subtables: "+menu[a].Name, desc)
+		})
+}
+
 func init() {
 	Register("C06", func(r *run.Run) {
 		r.Rule = "lookup lists from the shared generator x ALL input sequences up to a length bound; library result compared with the token-list reference shaper; cases the specification + testcases sections 1-3 do not define are counted, not compared; non-trivial = lookup lists for which at least one compared sequence had a matching rule"
@@ -203,6 +240,7 @@ func init() {
 		c06Simple(r, maxLen-1)
 		c06Nested(r, maxLen, bound)
 		c06NestedFlags(r, maxLen-1)
+		c06Subtables(r, maxLen-1)
 		r.MinNontrivial = 100
 	})
 }
